@@ -1,5 +1,5 @@
 (** Verifier family: case type and checker. *)
-From GV Require Export World Verdict.
+From GV Require Export World Reviews Verdict.
 
 Inductive vmode := MFull | MLatest | MFrom (i : nat).
 Inductive wobs := WO (v : vout) | VPanic.
@@ -9,7 +9,8 @@ Coercion wo_wrap : vout >-> wobs.
 Inductive wcase :=
 | WCase (w : world) (ref : bytes) (m : vmode) (obs : wobs)
 | WFindingCase (k : nat) (w : world) (ref : bytes) (m : vmode) (obs : wobs)          (* replay of a listed finding *)
-| WCaseMono (w w_noglobals : world) (ref : bytes) (m : vmode) (obs obs_ng : wobs).   (* C11: P with and without its global rules *)
+| WCaseMono (w w_noglobals : world) (ref : bytes) (m : vmode) (obs obs_ng : wobs)   (* C11: P with and without its global rules *)
+| WReview (rw : rworld) (ref : bytes) (obs : wobs).                                  (* C09: latest-only verification with code-review approvals *)
 
 Definition verr_eqb (a b : verr) : bool :=
   match a, b with
@@ -55,6 +56,15 @@ Definition wcase_check (c : wcase) : verdict :=
       | VOk => match o with WO (VTip _) => VFinding k | _ => VOk end
       | v => v
       end
+  | WReview rw ref o =>
+      match o with
+      | VPanic => VSpec 9
+      | WO o =>
+          let mo := verify_latest_r rw ref in
+          (* accepted => a verifier is met by signatures plus approvals that are exactly about this change *)
+          if vout_ok o && negb (latest_justified rw ref) then VSpec 4
+          else if negb (vout_eqb mo o) then VMismatch 4 else VOk
+      end
   | WCaseMono w w' ref m o o' =>
       match check1 w ref m o, check1 w' ref m o' with
       | VOk, VOk =>
@@ -69,4 +79,7 @@ Definition wcase_check (c : wcase) : verdict :=
   end.
 
 Definition wcase_model (c : wcase) : vout :=
-  match c with WCase w ref m _ | WFindingCase _ w ref m _ | WCaseMono w _ ref m _ _ => run_mode w ref m end.
+  match c with
+  | WCase w ref m _ | WFindingCase _ w ref m _ | WCaseMono w _ ref m _ _ => run_mode w ref m
+  | WReview rw ref _ => verify_latest_r rw ref
+  end.
